@@ -9,11 +9,20 @@ from ..runner import Check, Result
 
 a, b, c = V("a"), V("b"), V("c")
 # query alphabet: two queries with identical text, keys that collide with batch positions (0, 1), a negative key
-QALPHA = [(1, (b, a)), (0, (c, A(a, b))), (-2, (b, a)), (7, (N(c), b))]
+def _deep(leaf):
+    f = leaf
+    for _ in range(6):
+        f = A(a, f)
+    return f
+
+
+# two more queries that agree down to nesting depth 6 and differ only below it (same printed prefix, different meaning)
+QALPHA = [(1, (b, a)), (0, (c, A(a, b))), (-2, (b, a)), (7, (N(c), b)), (3, (b, _deep(c))), (4, (b, _deep(N(c))))]
 SINGLES = [(i,) for i in range(4)]
 PAIRS = [p for p in itertools.permutations(range(4), 2)]
 TRIPLES = [(0, 1, 2), (2, 1, 0), (3, 0, 1), (1, 3, 2)]
-BATCHES = SINGLES + PAIRS + TRIPLES
+DEEP = [(4,), (5,), (4, 5), (5, 4), (0, 5, 4)]
+BATCHES = SINGLES + PAIRS + TRIPLES + DEEP
 STRICT = ("p", "z", "w-rc2", "w-z3", "lex-rc2", "lex-z3", "c")
 EXT = ("p", "z", "w-rc2", "w-z3", "lex-rc2", "lex-z3")
 
@@ -75,7 +84,7 @@ def fresh(conds, cfg, weakly):
 
 def alone_answers(conds, cfg, weakly):
     out = []
-    for i in range(4):
+    for i in range(len(QALPHA)):
         rows = call(fresh(conds, cfg, weakly), (i,), False)
         out.append(rows if drive.is_exc(rows) else rows[0][2])
     return out
@@ -125,14 +134,16 @@ class C13(Check):
     id = "C13"
     level = "model_checking"
     rule = ("State machine = one InferenceManager per (base, operator, back-end, mode); operations inference(batch, multi) with "
-            "batch over a 4-query alphabet {1:(b|a), 0:(c|a,b), -2:(b|a), 7:(!c|b)} (duplicate text, keys colliding with batch "
-            "positions, a negative key): 4 singles, 12 ordered pairs, 4 triples; multi in {False, True}. E-seq (a): un-merged "
+            "batch over a query alphabet {1:(b|a), 0:(c|a,b), -2:(b|a), 7:(!c|b)} (duplicate text, keys colliding with batch "
+            "positions, a negative key) plus two queries that agree down to nesting depth 6 and differ below: 4 singles, 12 ordered "
+            "pairs, 4 triples, 5 batches with the deep pair; multi in {False, True}. E-seq (a): un-merged "
             "DFS over ALL sequences of depth <= 2 (thorough 3) of the sequential operations and of the parallel ones under the "
             "default schedule, per (base, config, mode). E-seq (b): explicit-state BFS with states merged on a canonical form "
             "of epistemic_state (id-pool numbering dropped) over 6 operations until no new state appears; all depth<=3 "
             "sequences are re-run un-merged and must land in the state the merged graph predicts (this validates the "
             "canonical form). E-sched: multiprocessing replaced by a controlled double whose children are real forks; "
-            "ALL 4^k delivery schedules (done / late / alive-lost / alive-wrote per worker) for k = 1..3 workers. Oracle per "
+            "ALL delivery schedules (done / late / alive-lost / alive-wrote per worker, and every completion order of the workers that "
+            "are done) for k = 1..3 workers. Oracle per "
             "call: one row per submitted query, submission order, own key, own text, answer = answer of that query alone on a "
             "fresh manager (under schedules: or flagged timed out with answer False); no process left un-joined. A fixed set of "
             "calls with the real multiprocessing module checks active_children() afterwards.")
@@ -211,7 +222,7 @@ class C13(Check):
             res.samples.append({"base": case0["conds"], "config": cfg, "mode": "extended" if weakly else "strict", "multi": multi,
                                 "sequences": nseq, "example_sequence": [list(BATCHES[5]), list(BATCHES[17])], "alone_answers": alone})
         elif kind == "bfs":
-            ops = [(0,), (1,), (2,), (3,), (0, 1), (3, 2)]
+            ops = [(0,), (1,), (2,), (3,), (0, 1), (3, 2), (4, 5)]
 
             def replay_path(path):
                 mgr = fresh(conds, cfg, weakly)
@@ -246,7 +257,7 @@ class C13(Check):
             nval = 0
             for d in (1, 2, 3):
                 for seq in itertools.product(range(len(ops)), repeat=d):
-                    if d == 3 and (seq[0] * 36 + seq[1] * 6 + seq[2]) % 3:
+                    if d == 3 and (seq[0] * 49 + seq[1] * 7 + seq[2]) % 3:
                         continue
                     mgr, rows = replay_path(seq)
                     st = init
@@ -287,7 +298,7 @@ class C13(Check):
                 obs = repr((rows, rows2))
                 dig.append(obs)
                 res.outcomes.add(obs)
-                sched_names = [sched.CHOICES[x] for x in choices]
+                sched_names = [sched.CHOICES[ch] if lab[0] == "worker" else "completion-order#%d" % ch for (lab, _n, ch) in trace]
                 if probs:
                     res.violation(self.id, "schedule", dict(case0, scope="sched", batch=list(batch), schedule=sched_names, choices=choices,
                                   tname="sched"), "every row flagged-timed-out-with-False or equal to the fresh single answer; own keys",
